@@ -118,6 +118,14 @@ Theorem C08_builtin_schemes_pass_the_check :
 Proof. exact default_schemes_ok. Qed.
 Print Assumptions C08_builtin_schemes_pass_the_check.
 
+(* ... where "taken at the real values" is itself checked: on every entry of the five schemes the integer the decoder
+   returns is 2000 * 2^40 times the value (-1)^s * m * 2^e that Flocq reads from the same binary32 bit pattern *)
+Theorem C08_builtin_parameters_are_read_at_their_real_values :
+  forallb (fun s => match pset_defaults s with Some p => params_decode_like_flocq p | None => false end)
+          [PS_DNA; PS_DNA_INTERNAL; PS_RNA; PS_PROTEIN; PS_GON] = true.
+Proof. exact builtin_entries_decode_like_flocq. Qed.
+Print Assumptions C08_builtin_parameters_are_read_at_their_real_values.
+
 (* ... hence: under each of them, two equal strings of any length over the residue codes of that alphabet are
    aligned on the diagonal, which add_gap_info expands to matches only *)
 Theorem C08_equal_pair_has_no_gap_under_builtin_schemes : forall s m gpo gpe tgpe x,
